@@ -38,8 +38,14 @@ CLAIMED = {
          NOTE_COMMON + 'binary64 quarter arithmetic exact below 2^51 (assumed, exercised).', 'Lean 4 proof (hand model) + differential correspondence', '6/C16'),
  'C03': ('Kernel-checked theorem for every one-byte hash type, input index and transaction shape: the hand model of get_transaction_digest '
          '(with its temporaries: copy, blanked scriptSigs, NONE/SINGLE/ANYONECANPAY surgery) equals double-SHA256 of the Bitcoin Core '
-         'SignatureHash preimage Spec; SINGLE without matching output is refused; the digest ignores existing scriptSigs. Model tied to the code '
-         'by the correspondence run.', NOTE_COMMON + 'SHA-256 is a parameter.', 'Lean 4 proof (hand model) + differential correspondence', '6/C03'),
+         'SignatureHash preimage Spec; SINGLE without matching output is refused; the digest ignores existing scriptSigs. Tier T: '
+         'get_transaction_digest is re-translated from the working tree on every run — the record lists of tmp_tx = Transaction.copy(self) become '
+         'mutable values (element-wise field assignment = map, indexed field assignment = get + set, append, re-binding), after the translator has '
+         'checked structurally that Transaction/TxInput/TxOutput/TxWitnessInput/Script.copy hand every field to the constructor field of the same name — '
+         'and proved to return, results and exceptions, what the model returns for every transaction, index, script code and hash type (counts and '
+         'scripts < 2^64); so the SignatureHash theorem and the SINGLE refusal are about the translated code. The generated function is also run '
+         'against the implementation.', NOTE_COMMON + 'SHA-256 is a parameter; translator semantics trusted, incl. value semantics for the deep copy (no '
+         'object of the copy escapes — checked; freshness of the copy is C13).', 'Lean 4 proof over translated source + differential correspondence', '6/C03'),
  'C04': ('Kernel-checked theorem for every hash type without the undefined 0x70 bits, any index, any script/amount: the hand model of '
          'get_transaction_segwit_digest equals double-SHA256 of the BIP143 preimage Spec (CompactSize prefixes everywhere, zero hashOutputs for '
          'SINGLE out of range); independent of scriptSigs/witnesses. Tier T: get_transaction_segwit_digest is re-translated from the working tree on '
